@@ -210,13 +210,14 @@ def httpPart (r : Resp) : String :=
 def renderFor (op : Op) (r : Resp) : String :=
   render r ++ (if viaHttp op then httpPart r else "")
 
-/-- implementation text with the members the model does not predict removed -/
+/-- implementation text in the form the model's answer is rendered in -/
 def implCanon (op : Op) (out : String) : String :=
   match op with
   | .listParts .. =>
-    -- `ok:<parts>:<in-order flag>`
+    -- `ok:<parts, sorted by the harness>:<in-order flag>`: the model predicts the order (1d762a7: the code sorts), so only an
+    -- answer that came back in ascending order (flag 1) is the model's text; flag 0 stays and differs from it
     match out.splitOn ":" with
-    | ["ok", ps, _flag] => "ok:" ++ ps
+    | ["ok", ps, "1"] => "ok:" ++ ps
     | _ => out
   | _ => out
 
@@ -394,6 +395,8 @@ def classify (st : State) (sp : Store) (tn : Taints) (op : Op) (exp got : Resp) 
   | .uploadPartCopy _ _ _ _ n .., .err .InvalidArgument, .part _ =>
     if n < 1 ∨ n > 10000 then (5, "fs:part-number-not-validated") else (5, "fs:part-copy-range-unchecked")
   | .uploadPartCopy .., .err .NoSuchBucket, .err .NoSuchKey => (2, "fs:missing-bucket-reported-as-missing-key")
+  -- the same parts, but the real answer was not in ascending part-number order
+  | .listParts .., .parts a, .parts b => if a = b then (2, "fs:list-parts-unordered") else shapeOr generic
   | .completeMultipartUpload _ _ k .., _, .err .InvalidArgument =>
     -- a key the backend does not admit at all ('.', '..': keys are paths to it) is refused before anything else is looked at
     -- (since 1d0f501 also by create_multipart_upload): the family of `fs:key-normalised`
@@ -512,7 +515,14 @@ def implShape (op : Op) (out : String) : Resp :=
     | .createMultipartUpload .. => .created 0
     | .uploadPart .. => .part none
     | .uploadPartCopy .. => .part none
-    | .listParts .. => .parts []
+    | .listParts .. =>
+      -- `ok:<n=size,…>:<in-order flag>`: the parts (the harness sorts them), so that `classify` can tell wrong order from wrong parts
+      match out.splitOn ":" with
+      | "ok" :: ps :: _ =>
+        .parts (if ps = "" then [] else ((ps.splitOn ",").filterMap fun kv => match kv.splitOn "=" with
+          | [n, sz] => (n.toInt?).bind fun n => sz.toNat?.map fun sz => (n, sz)
+          | _ => none))
+      | _ => .parts []
     | .completeMultipartUpload .. => .completed none
     | _ => .ok
 
@@ -567,17 +577,11 @@ def replay (dirLen : Nat) (ops : List Op) (outs : List String) : Acc :=
         else
           -- the model's structured answer equals the implementation's: judge it against the store
           let (p1, e) := StoreSpec.step hashes a.sp op
-          let partsUnordered := match op with
-            | .listParts .. => out.endsWith ":0"
-            | _ => false
           if renderFor op e ≠ i then
             let (prio, cls) := classify a.st a.sp a.tn op e r
             { a with st := s1, sp := abs s1, tn := {},
                      fails := (prio, k, cls ++ s!" [{opName op} expected {((renderFor op e).take 60).toString} got {(i.take 60).toString}]") :: a.fails }
           else
-            let a := if partsUnordered then
-                { a with fails := (2, k, "fs:list-parts-unordered [parts not in ascending order]") :: a.fails }
-              else a
             { a with st := s1, sp := p1, tn := retaint a.tn a.st op a.sp p1 (abs s1) }) {}
 
 def clsOf (s : String) : String := (s.splitOn " ").headD s
